@@ -59,6 +59,13 @@ CORPUS = [
     {"kind": "roundtrip", "text": 'component title=title|default:_("Untitled")', "trigger": T_ROUND},
     {"kind": "roundtrip", "text": "c a=[x|f:_('t'), *y] {k: v|g:_(\"u\")|h, **d} ...e|f:1 _('w')|f /", "trigger": T_ROUND},
     {"kind": "roundtrip", "text": "c [ *[ 1 , ] , ] { 'k' : [ ] , **{ } , } ...x", "trigger": T_ROUND},
+    # seeded change C12e (parse_template moved inside the try of compile_nodelist whose handler reads e.token under engine.debug):
+    # lexer-level errors must stay TemplateSyntaxError under Engine(debug=True) too
+    {"kind": "template", "source": "{% component 'test' value=\"abc %}", "trigger": T_CLASS},
+    {"kind": "template", "source": "{% slot \"content %}", "trigger": T_CLASS},
+    {"kind": "template", "source": "a{% if x == 'a %}b", "trigger": T_CLASS},
+    {"kind": "template", "source": "{% component \"test\" value='it's' / %}", "trigger": T_CLASS},
+    {"kind": "template", "source": "{% component 'x' a=[1 / %}", "trigger": T_CLASS},
     # shapes that once looked suspicious while porting (all fine): empty quote char after `_(`, `=` first, ...
     {"kind": "parse_serialize", "text": "_(", "trigger": T_CLASS},
     {"kind": "parse_serialize", "text": "a|_(", "trigger": T_CLASS},
@@ -140,6 +147,9 @@ def split_contents_stops(source):
 
 
 def template_trigger(source, exc):
+    if "|debug=False:" in exc:          # classes of the two engines: judge the offending one
+        parts = [x.split(":", 1)[1] for x in exc.split("|")]
+        exc = next((x for x in parts if x not in ("ok", "TemplateSyntaxError")), parts[0])
     if exc == "StopIteration" and split_contents_stops(source):
         return T_SPLIT
     return classify_trigger(source, exc)
@@ -218,14 +228,41 @@ def roundtrip_class(r):
     return "special-char-in-token" if U.has_special_in_token(r["attrs"]) else "other"
 
 
+_engines = {}
+BUILTINS = ["django_components.templatetags.component_tags"]
+
+
+def engines():
+    """explicit engines for both settings of `debug` (the debug branch of the patched Template.compile_nodelist reads e.token /
+    builds template_debug - a different code path for every error)"""
+    from django.template import Engine
+    if not _engines:
+        for dbg in (True, False):
+            _engines[dbg] = Engine(debug=dbg, builtins=BUILTINS)
+    return _engines
+
+
 def template_class(source):
+    """exception class of Template(source) compiled under Engine(debug=True) AND Engine(debug=False): the common class, or
+    `debug=True:X|debug=False:Y` when one of them is neither ok nor TemplateSyntaxError / they differ"""
     from django.template import Template
-    try:
-        with deadline():
-            Template(source)
-        return "ok"
-    except BaseException as e:  # noqa
-        return exc_name(e)
+    out = []
+    for dbg in (True, False):
+        try:
+            with deadline():
+                Template(source, engine=engines()[dbg])
+            out.append("ok")
+        except BaseException as e:  # noqa
+            out.append(exc_name(e))
+    if out[0] == out[1]:
+        return out[0]
+    if all(o in ("ok", "TemplateSyntaxError") for o in out):
+        _debug_differs.append(source[:200])
+        return "TemplateSyntaxError"
+    return "debug=True:%s|debug=False:%s" % tuple(out)
+
+
+_debug_differs = []
 
 
 ERR_STR = re.compile(r"^Unexpected end of text - unterminated (.) string$", re.S)
@@ -709,7 +746,7 @@ def run(tier, seed):
                 if (cls == "documented" or not rt or kind == "grammar") and len(rt_terms) < rt_cap and U.bracket_depth(t) <= 60:
                     rt_terms.append("(%s, %s)" % (cstr(t), C.cbool(rt)))
                     rt_cases.append(t)
-                if len(ser_texts) < (20000 if thorough else 1500) and r["ser"] not in seen:
+                if len(ser_texts) < (20000 if thorough else 1000) and r["ser"] not in seen:
                     seen.add(r["ser"])
                     ser_texts.append(r["ser"])
             try:
@@ -899,6 +936,7 @@ def run(tier, seed):
     finally:
         registry.unregister("x")
     chk.extra["phase_wall_s"] = phases
+    chk.extra["template_class_differs_between_debug_engines (ok vs TemplateSyntaxError, not judged)"] = _debug_differs[:20]
     chk.assumptions = [
         "cost of one execution of a scanner-loop body in CPython (str +=, slicing, the helper scans take_until / take_while over the rest of the text) "
         "is bounded by c*(len(text)+1) - supported by the scaling test, not proved; the NUMBER of loop-body executions is proved (<= 5*len+4) and compared",
@@ -912,7 +950,7 @@ def run(tier, seed):
              "exhaustively (and each behind a tag name for the round-trip oracle), seeded random strings up to 14 atoms over 37 atoms, tags generated from the documented "
              "grammar (20%% canonical layout) and 1-3 character-level mutations of each, the canonical serialisations of all of those, nested literals of all six "
              "list/dict/spread shapes around MAX_NESTING_DEPTH (49..150) and far beyond (250..1500); loop-body executions on a sample of those and on every adversarial family; "
-             "Template(source) for each sampled tag body in 2 of 6 tag shapes; arbitrary templates (all strings <= %d pieces of {%% %%} ' \" \\ {{ }} newline + random "
+             "Template(source) - always compiled under Engine(debug=True) and Engine(debug=False) - for each sampled tag body in 2 of 6 tag shapes; arbitrary templates (all strings <= %d pieces of {%% %%} ' \" \\ {{ }} newline + random "
              "concatenations of text, variables, comments, unterminated openers, verbatim, quoted and mutated tags) through parse_template and Template; _detailed_tag_parser on all "
              "strings <= %d atoms over its alphabet + random; is_dynamic_expression on all strings <= %d atoms + random; in a watchdog child process: %d tag and %d template "
              "families x k in %s (unterminated strings of both quote kinds with k backslashes / escaped quotes, nesting, runs of every operator, unterminated {%% {{ {#) "
